@@ -73,6 +73,10 @@ var (
 	// Spawn runs a due AfterFunc callback; the default calls it synchronously
 	// from Advance. A controlled scheduler may install its own.
 	Spawn = func(f func()) { f() }
+	// OnJump, when set, is told every forward jump of the virtual clock at the moment it
+	// happens (before anything that falls due at the new instant runs), so that a driver's
+	// event log shows callbacks and whatever they let other threads do at the right instant.
+	OnJump func(d Duration)
 )
 
 // Base is the instant the virtual clock starts at.
@@ -171,7 +175,9 @@ func Advance(d Duration) {
 			return due[i].seq < due[j].seq
 		})
 		e := due[0]
+		var jump Duration
 		if e.at.After(now) {
+			jump = e.at.Sub(now)
 			now = e.at
 		}
 		if e.period > 0 {
@@ -181,6 +187,9 @@ func Advance(d Duration) {
 		}
 		at, wait := now, tickWait
 		mu.Unlock()
+		if jump > 0 && OnJump != nil {
+			OnJump(jump)
+		}
 		switch {
 		case e.fn != nil:
 			Spawn(e.fn)
@@ -202,10 +211,15 @@ func Advance(d Duration) {
 		}
 	}
 	events = live
+	var jump Duration
 	if target.After(now) {
+		jump = target.Sub(now)
 		now = target
 	}
 	mu.Unlock()
+	if jump > 0 && OnJump != nil {
+		OnJump(jump)
+	}
 }
 
 // deliverTick hands one tick to the ticker's reader and waits until the
